@@ -9,6 +9,7 @@ GROUPS.append(G("tu_FilterOK_reject", TU, "h_FilterOK_reject", enforce=[], link=
                 bounded="the filter list has at most 256 entries by construction (array size); the reject direction unwinds them all"))
 GROUPS.append(G("tu_SkipRecord", TU, "h_SkipRecord", enforce=["SkipRecord"], link=LINK, unwind=12, timeout=300, flags=["--signed-overflow-check"]))
 GROUPS.append(G("tu_ReadRecordHeader", TU, "h_ReadRecordHeader", enforce=[], link=LINK, unwind=12, timeout=300, functions=["ReadRecordHeader", "Granularity"]))
+GROUPS.append(G("tu_ReadRecordHeader_trunc", TU, "h_ReadRecordHeader_trunc", enforce=[], link=LINK, unwind=12, timeout=300, functions=["ReadRecordHeader"], defs=["-DVERIF_EXIT_REACH"]))
 GROUPS.append(G("tu_WriteRecordHeader", TU, "h_WriteRecordHeader", enforce=[], link=LINK, unwind=12, timeout=300, functions=["WriteRecordHeader", "Granularity"]))
 GROUPS.append(G("tu_CMD_FilterList", TU, "h_CMD_FilterList", enforce=[], link=LINK, loops=True, unwind=258, unwindset=["@h_CMD_FilterList:CMD_FilterList:last:2", "@CMD_FilterList:CMD_FilterList:last:2"], timeout=600, dfcc=False, drop_unused=True, functions=["CMD_FilterList"], object_bits=12, defs=["-DVERIF_FILTERLIST"], flags=["--slice-formula"], split=6,
                 bounded="one CPU id per call (the comma loop is unwound once); the id's value is an oracle for the number parser"))
